@@ -182,7 +182,7 @@ def gen_name(rng, ext, blanks=True):
     while True:
         s = "".join(rng.choice(chars) for _ in range(n))
         s = s.strip(" .")
-        if not s or s[0] in "-~" or s in (".", ".."):
+        if not s or s in (".", ".."):
             continue
         if "  " in s:
             continue
@@ -191,7 +191,7 @@ def gen_name(rng, ext, blanks=True):
 
 def gen_layout(rng):
     """-> dict describing directories and files (all relative to a root)."""
-    d1 = gen_name(rng, "")
+    d1 = gen_name(rng, "") if rng.random() > 0.1 else rng.choice(["~", "~x", "-d"])
     d2 = gen_name(rng, "")
     while d2 == d1:
         d2 = gen_name(rng, "")
@@ -282,7 +282,8 @@ def needs_quoting(L):
 
 def entry_points(path, cwds):
     """-> list of (label, cwd, callable(kind) -> result) ; kind in schema/config"""
-    eps = [("abspath", None, path), ("url", None, "file://" + pathname2url(path))]
+    eps = [("abspath", None, path), ("url", None, "file://" + pathname2url(path)),
+           ("url-one-slash", None, "file:" + pathname2url(path))]
     for c in cwds:
         eps.append(("relpath", c, os.path.relpath(path, c)))
         eps.append(("relfile", c, ("file", os.path.relpath(path, c))))
